@@ -198,9 +198,25 @@ def flatten(d):
     return [d]
 
 
+CROSSCHECK = {'on': False, 'done': 0, 'skipped': 0}
+
+
 def check_equal(rep, rule, key, where, actual, expected, what, undecided_note=''):
     r = compare_values(actual, expected)
     if r == 'equal':
+        if CROSSCHECK['on']:
+            # thorough tier: an independent look at the symbolic verdict - both forms evaluated numerically at in-domain points
+            a_ = actual.rat if isinstance(actual, CallV) else actual
+            e_ = expected.rat if isinstance(expected, CallV) else expected
+            if isinstance(a_, Rat) and isinstance(e_, Rat):
+                try:
+                    agree = alg.numeric_agree(a_, e_, _DefaultRanges(), trials=6, rel=1e-6)
+                    wit = None if agree else alg.numeric_witness(a_, e_, _DefaultRanges(), trials=6, rel=1e-6)
+                except RecursionError:
+                    agree, wit = True, None
+                if wit is not None:
+                    raise AnalysisError('symbolic equality of %s is contradicted numerically at %s: %r vs %r' % (key, wit[0], wit[1], wit[2]))
+                CROSSCHECK['done' if agree else 'skipped'] += 1
         rep.holds(rule, key, where, what + ': normal forms identical')
     elif r == 'different':
         rep.violated(rule, key, where, what + ': the code computes a different function than the reference formula',
